@@ -36,6 +36,7 @@ type Site struct {
 	Func  string `json:"func"`
 	Entry bool   `json:"entry,omitempty"`
 	Store bool   `json:"store,omitempty"`
+	Sync  bool   `json:"sync,omitempty"`
 	Kind  string `json:"kind,omitempty"` // "", "mapkeys", "maprange", "rangemap"
 }
 
@@ -44,6 +45,7 @@ type Report struct {
 	Sites      []Site   `json:"-"`
 	NSites     int      `json:"n_sites"`
 	NStore     int      `json:"n_store_sites"`
+	NSync      int      `json:"n_sync_sites"`
 	OrderSeams []string `json:"order_seams"`
 	Unseamed   []string `json:"unseamed_order_sites"`
 	Unmodelled []string `json:"unmodelled_blocking_sites"`
@@ -140,7 +142,7 @@ func writeSiteTable(dir, pkgName string, base int, sites []Site) error {
 	var b bytes.Buffer
 	fmt.Fprintf(&b, "//go:build verif\n\npackage %s\n\nimport verifsim %q\n\nfunc init() {\n\tverifsim.RegisterSites(%d, []verifsim.Site{\n", pkgName, SimImport, base)
 	for _, s := range sites {
-		fmt.Fprintf(&b, "\t\t{File: %q, Line: %d, Func: %q, Entry: %v, Store: %v},\n", s.File, s.Line, s.Func, s.Entry, s.Store)
+		fmt.Fprintf(&b, "\t\t{File: %q, Line: %d, Func: %q, Entry: %v, Store: %v, Sync: %v},\n", s.File, s.Line, s.Func, s.Entry, s.Store, s.Sync)
 	}
 	b.WriteString("\t})\n}\n")
 	return os.WriteFile(filepath.Join(dir, "zz_verifsites_verif.go"), b.Bytes(), 0o644)
@@ -428,6 +430,10 @@ func (r *rw) list(l []ast.Stmt, entry bool, at token.Pos) []ast.Stmt {
 	for i, s := range l {
 		store := r.isStore(s)
 		site := r.newSite(s.Pos(), entry && i == 0, store, "")
+		if r.callsSync(s) {
+			r.rep.Sites[site].Sync = true
+			r.rep.NSync++
+		}
 		pre := r.stmt(s)
 		out = append(out, r.yieldStmt(site))
 		out = append(out, pre...)
@@ -548,6 +554,57 @@ func (r *rw) rangeMap(s *ast.RangeStmt) []ast.Stmt {
 	s.X = simCall("KeysOf", tmp, intLit(site))
 	s.Body.List = append(head, s.Body.List...)
 	return pre
+}
+
+// callsSync reports whether the statement itself (not nested blocks or function
+// literals) calls into package sync or sync/atomic - directly, through a method
+// of one of their types, or through the verifsim models that replaced such a
+// call. Such statements bound the critical sections and atomic publications of
+// the code; the "syncgap" schedule policy preempts right after them.
+func (r *rw) callsSync(s ast.Stmt) bool {
+	found := false
+	var visit func(n ast.Node) bool
+	visit = func(n ast.Node) bool {
+		if found {
+			return false
+		}
+		switch x := n.(type) {
+		case *ast.BlockStmt, *ast.FuncLit:
+			return false
+		case *ast.CallExpr:
+			if sel, ok := x.Fun.(*ast.SelectorExpr); ok {
+				if id, ok := sel.X.(*ast.Ident); ok && id.Name == "verifsim" && (sel.Sel.Name == "Lock" || sel.Sel.Name == "OnceDo") {
+					found = true
+					return false
+				}
+				var obj types.Object
+				if selection := r.info.Selections[sel]; selection != nil {
+					obj = selection.Obj()
+				} else {
+					obj = r.info.Uses[sel.Sel]
+				}
+				if fn, ok := obj.(*types.Func); ok && fn.Pkg() != nil && (fn.Pkg().Path() == "sync" || fn.Pkg().Path() == "sync/atomic") {
+					found = true
+					return false
+				}
+			}
+		}
+		return true
+	}
+	switch st := s.(type) {
+	case *ast.IfStmt:
+		if st.Init != nil {
+			ast.Inspect(st.Init, visit)
+		}
+		ast.Inspect(st.Cond, visit)
+	case *ast.ForStmt, *ast.RangeStmt, *ast.SwitchStmt, *ast.TypeSwitchStmt, *ast.SelectStmt, *ast.BlockStmt:
+		// headers of loops/switches rarely matter; their bodies have their own sites
+	case *ast.LabeledStmt:
+		return r.callsSync(st.Stmt)
+	default:
+		ast.Inspect(s, visit)
+	}
+	return found
 }
 
 // isStore is a static guess: does the statement assign through a package-level
